@@ -209,7 +209,7 @@ func init() {
 		ID: "C05", Title: "Evaluation is repeatable and leaves the compiled expression unchanged",
 		Rule: "cases: PRNG-generated deterministic type-chaotic programs (every node type and built-in) with 3 generated inputs each; per case a history of 2..5 Eval calls on one Expr over those inputs (same input repeated, other inputs in between), with 0..3 interfering evaluations of other expressions between the steps (other calls of the same built-ins under other contexts, partials of context-defaulting built-ins, chains into call nodes), plus the first evaluation of a second, fresh Expr of the same text. " +
 			"Monitors: (1) all outcomes observed for one (program, input) - value (exact, or as multisets for map-order dependent programs), 'no value', error kind - must be equal, within the history and against the fresh Expr; (2) a structural hash of the syntax tree (reflection over VerifNode(), unexported fields and slice lengths included) and Expr.String() must be the same after every Eval as before the first; " +
-			"(4) library carry-over histories: one built-in with all arguments taken from the input ($fromMillis, $toMillis, $formatNumber, $formatBase with generated pictures/zones/options, and every other deterministic built-in with type-chaotic arguments), evaluated over 3..5 inputs that share one argument (picture, zone, options, radix, pattern) and differ in the others, then by a second Expr of the same text in reverse order, then the first input again: every input must give its first outcome each time; every ninth of these cases is an object constructor (plain, grouping, path step, nested) whose member values bind and read shared variables, evaluated 8 times on one input: all outcomes equal; " +
+			"(4) library carry-over histories: one built-in with all arguments taken from the input ($fromMillis, $toMillis, $formatNumber, $formatBase with generated pictures/zones/options, and every other deterministic built-in with type-chaotic arguments), evaluated over 3..5 inputs that share one argument (picture, zone, options, radix, pattern) and differ in the others, then by a second Expr of the same text in reverse order, then the first input again: every input must give its first outcome each time; every ninth of these cases is an object constructor (plain, grouping, path step, nested) whose member values bind and read shared variables, evaluated 8 times on one input: all outcomes equal; another ninth checks context carry-over: a context-defaulting built-in reached without a call site of its own (through ~>, a partial application, a higher-order function) must give the same outcome before and after built-ins were called through callees that are not plain variables (a conditional, a parenthesised function, an array member) under varying context items; " +
 			"(3) 200 shared probe pairs are evaluated by all worker processes at different points of their histories and their outcomes compared across processes offline. non-trivial = program that compiled and produced a value or error on at least one input; distinct by (program, inputs, history)",
 		Assumptions: []string{"programs using $random/$shuffle/$now/$millis are not generated here ($now/$millis constancy is checked in C19)", "map-order dependent programs are compared as multisets, error kind is not compared when several members of a constructor can fail"},
 		Plan: func(tier string, seed uint64) *fw.Plan {
